@@ -279,6 +279,15 @@ def run_impl(sc, url="ws://example.test/chat", ws_kwargs=None, check_alias=True)
             run_impl(prev, url=url, ws_kwargs=ws_kwargs, check_alias=check_alias)
         except BaseException:
             pass
+    # ... and the earlier life of this very WebSocket object: connections made on it before the one under test
+    if sc.get("previously_same") and sc.get("_ws_object") is None:
+        ws0 = W.WebSocket(sc.get("url", url), **(sc.get("ws_kwargs") or ws_kwargs or {}))
+        for prev in sc["previously_same"]:
+            try:
+                run_impl(dict(prev, _ws_object=ws0), url=url, ws_kwargs=ws_kwargs, check_alias=check_alias)
+            except BaseException:
+                pass
+        sc = dict(sc, _ws_object=ws0)
     run = Run(sc)
     key16 = sc.get("key16", b"\x01" * 16)
 
